@@ -48,6 +48,7 @@ type Conn struct {
 	Cuts        []int // absolute offsets: a Read never returns bytes across one of them
 	OneByte     bool  // every Read returns at most one byte
 	EOFWithData bool  // the Read returning the last byte before a cut also returns the cut's error
+	CloseErr    error // returned by the first Close (which closes the connection nevertheless)
 	StallWrites bool  // Write blocks until its deadline or Close
 
 	ReadBytes       int // total bytes the client has consumed
@@ -319,6 +320,11 @@ func (c *Conn) Close() error {
 	c.kickS()
 	if already {
 		return net.ErrClosed
+	}
+	if c.CloseErr != nil {
+		// the connection is torn down all the same; the transport only reports that the
+		// teardown was not clean (as crypto/tls does when its close_notify cannot be written)
+		return c.CloseErr
 	}
 	return nil
 }
